@@ -153,6 +153,7 @@ def compare(ctx, rule, fa, ref_source, module=None, known=(), ignore=None, why='
     fa = FuncAnalysis(ctx.repo, fa.fi, closure=fa.closure, versioned=True)
     ref = ref_fa if ref_fa is not None else analyze_source(ctx.repo, module, ref_source)
     rename = dict(extra_rename or {})
+    rename[('fn', fa.fi.qualname)] = ('fn', ref.fi.qualname)       # self reference (recursion)
     # nested function references are matched by order of definition
     for (an, aq), (rn, rq) in zip(fa.nested.items(), getattr(ref, 'nested', {}).items()):
         rename[('fn', aq)] = ('fn', rq)
